@@ -285,8 +285,9 @@ def renumber(data, gap_seed):
     mapping = {}
     for old, idx in zip(olds, idxs):
         mapping[old.encode()] = ("image%d.%s" % (idx, old.rsplit(".", 1)[1])).encode()
-    if olds and rnd.random() < 0.3:  # one part without an index
-        mapping[olds[0].encode()] = ("image.%s" % olds[0].rsplit(".", 1)[1]).encode()
+    bare = "image.%s" % olds[0].rsplit(".", 1)[1] if olds else None
+    if olds and rnd.random() < 0.3 and "ppt/media/" + bare not in zin.namelist():  # one part without an index
+        mapping[olds[0].encode()] = bare.encode()
     pat = re.compile(rb'media/(image\d+\.\w+)"')
     out = io.BytesIO()
     with zipfile.ZipFile(out, "w", zipfile.ZIP_DEFLATED) as zf:
